@@ -6,6 +6,7 @@ import (
 	"go/token"
 	"go/types"
 	"math/big"
+	"os"
 	"strings"
 	"time"
 
@@ -80,6 +81,18 @@ type Interp struct {
 	MaxDecisions int
 	refine      map[string][2]*big.Int // path-local interval refinements by term key
 	numLeaves   []*Term                // integer-valued symbolic leaves of documents
+	tok         *tokenMode
+	dom         map[string]*smallDom // finite domains of small-range variables
+	entangled   map[string]bool      // variables that occur in multi-variable conjuncts
+	varsMemo    map[string][]string
+}
+
+// smallDom is the set of values a small-range integer variable can still take
+// according to the single-variable conjuncts of the path condition.
+type smallDom struct {
+	lo   int64
+	bits []bool
+	n    int
 }
 
 type HarnessCfg struct {
@@ -136,6 +149,35 @@ func (in *Interp) assume(c *Term) {
 func (in *Interp) addPC(c *Term) {
 	in.pc = append(in.pc, c)
 	in.learn(c, 0)
+	in.refineDomains(c)
+}
+
+func (in *Interp) refineDomains(c *Term) {
+	if c.op == OAnd {
+		for _, a := range c.args {
+			in.refineDomains(a)
+		}
+		return
+	}
+	if name, ok := in.singleVar(c); ok {
+		d := in.dom[name]
+		for i, live := range d.bits {
+			if !live {
+				continue
+			}
+			if b, _ := Eval(c, map[string]*Term{name: IntC(d.lo + int64(i))}).BoolVal(); !b {
+				d.bits[i] = false
+				d.n--
+			}
+		}
+		return
+	}
+	vs := in.termVars(c)
+	if len(vs) > 1 {
+		for _, v := range vs {
+			in.entangled[v] = true
+		}
+	}
 }
 
 func (in *Interp) learn(c *Term, depth int) {
@@ -278,8 +320,148 @@ func (in *Interp) feasible(c *Term) bool {
 	if b, ok := c.BoolVal(); ok {
 		return b
 	}
+	if name, ok := in.singleVar(c); ok {
+		// the finite domain is a necessary condition; it is also sufficient when
+		// no other conjunct relates the variable to another one
+		d := in.dom[name]
+		any := false
+		for i, live := range d.bits {
+			if !live {
+				continue
+			}
+			if b, _ := Eval(c, map[string]*Term{name: IntC(d.lo + int64(i))}).BoolVal(); b {
+				any = true
+				break
+			}
+		}
+		if !any {
+			return false
+		}
+		if !in.entangled[name] {
+			return true
+		}
+	}
+	if c.op == OAnd {
+		// conjunction of single-variable atoms over independent variables
+		byVar := map[string][]*Term{}
+		ok := true
+		for _, a := range c.args {
+			name, single := in.singleVar(a)
+			if !single || in.entangled[name] {
+				ok = false
+				break
+			}
+			byVar[name] = append(byVar[name], a)
+		}
+		if ok {
+			for name, atoms := range byVar {
+				d := in.dom[name]
+				any := false
+				for i, live := range d.bits {
+					if !live {
+						continue
+					}
+					m := map[string]*Term{name: IntC(d.lo + int64(i))}
+					all := true
+					for _, a := range atoms {
+						if b, _ := Eval(a, m).BoolVal(); !b {
+							all = false
+							break
+						}
+					}
+					if all {
+						any = true
+						break
+					}
+				}
+				if !any {
+					return false
+				}
+			}
+			return true
+		}
+	}
+	if qlog {
+		fmt.Fprintf(os.Stderr, "QUERY vars=%v cond=%.200s\n", in.termVars(c), c.String())
+	}
 	r, _ := in.query(c)
 	return r != Unsat
+}
+
+var qlog = os.Getenv("VERIF_QLOG") != ""
+
+// expandCases splits a disjunction of single-variable atoms into mutually
+// exclusive conjunctions (a1 | !a1&a2 | !a1&!a2&a3 ...), so that taking one
+// of them keeps the finite domains independent instead of recording a
+// relation between variables.
+func (in *Interp) expandCases(t *Term) []*Term {
+	if t.op == ONot && t.args[0].op == OAnd {
+		// !(a1 & a2 & ...) = !a1 | !a2 | ...
+		neg := make([]*Term, len(t.args[0].args))
+		for i, a := range t.args[0].args {
+			neg[i] = Not(a)
+		}
+		t = &Term{op: OOr, sort: SBool, args: neg, key: "or*" + t.key}
+	}
+	if t.op != OOr || len(t.args) > 6 {
+		return []*Term{t}
+	}
+	for _, a := range t.args {
+		if _, ok := in.singleVar(a); !ok {
+			return []*Term{t}
+		}
+	}
+	var out []*Term
+	var negs []*Term
+	for _, a := range t.args {
+		out = append(out, And(append(append([]*Term{}, negs...), a)...))
+		negs = append(negs, Not(a))
+	}
+	return out
+}
+
+// termVars lists the variables of a term (memoised by key, capped).
+func (in *Interp) termVars(t *Term) []string {
+	if v, ok := in.varsMemo[t.key]; ok {
+		return v
+	}
+	seen := map[string]bool{}
+	var out []string
+	var walk func(t *Term) bool
+	walk = func(t *Term) bool {
+		switch t.op {
+		case OConst:
+			return true
+		case OVar:
+			if !seen[t.name] {
+				seen[t.name] = true
+				out = append(out, t.name)
+			}
+			return len(out) <= 4
+		case OUF:
+			out = append(out, "uf:"+t.name)
+		}
+		for _, a := range t.args {
+			if !walk(a) {
+				return false
+			}
+		}
+		return true
+	}
+	walk(t)
+	in.varsMemo[t.key] = out
+	return out
+}
+
+func (in *Interp) singleVar(c *Term) (string, bool) {
+	vs := in.termVars(c)
+	if len(vs) != 1 {
+		return "", false
+	}
+	if _, ok := in.dom[vs[0]]; !ok {
+		return "", false
+	}
+	return vs[0], true
 }
 
 // decide picks one of the mutually exclusive, jointly exhaustive conditions.
@@ -429,7 +611,13 @@ func (in *Interp) branch(c *Term) bool {
 	if b, ok := c.BoolVal(); ok {
 		return b
 	}
-	return in.decide("if", []*Term{c, Not(c)}) == 0
+	yes := in.expandCases(c)
+	no := in.expandCases(Not(c))
+	if len(yes) == 1 && len(no) == 1 {
+		return in.decide("if", []*Term{c, Not(c)}) == 0
+	}
+	alts := append(append([]*Term{}, yes...), no...)
+	return in.decide("ifx", alts) < len(yes)
 }
 
 // concretize forces an Int term to a concrete value in [lo,hi], forking over
@@ -486,6 +674,14 @@ func sanitize(s string) string {
 
 func (in *Interp) freshInt(base string, lo, hi *big.Int) *Term {
 	v := Var(in.freshName(base), SInt, lo, hi)
+	if lo != nil && hi != nil && lo.IsInt64() && hi.IsInt64() && hi.Int64()-lo.Int64() < 300 {
+		n := int(hi.Int64()-lo.Int64()) + 1
+		d := &smallDom{lo: lo.Int64(), bits: make([]bool, n), n: n}
+		for i := range d.bits {
+			d.bits[i] = true
+		}
+		in.dom[v.name] = d
+	}
 	if lo != nil {
 		in.bg = append(in.bg, Le(BigC(lo), &Term{op: OVar, sort: SInt, name: v.name, key: v.key}))
 	}
@@ -634,6 +830,11 @@ func (in *Interp) step() {
 func (in *Interp) CallFunction(fn *ssa.Function, args []Value, bindings []Value) Value {
 	if fn.Name() == "init" && fn.Pkg != nil && !in.W.IsRepoPkg(fn.Pkg) && fn.Signature.Recv() == nil {
 		return nil
+	}
+	if in.tok != nil && fn.Name() == "Next" && fn.String() == "(*"+RepoModule+"/internal/lexer.Lexer).Next" {
+		if r, ok := in.tokenNext(args); ok {
+			return r
+		}
 	}
 	if stub, ok := in.W.Stubs[fn.String()]; ok {
 		in.StubsUsed[fn.String()] = true
@@ -1448,4 +1649,31 @@ func truncDiv(x, y *Term) *Term {
 	}
 	adj := Ite(Gt(y, IntC(0)), Add(q, IntC(1)), Sub(q, IntC(1)))
 	return Ite(Or(Ge(x, IntC(0)), Eq(r, IntC(0))), q, adj)
+}
+
+// tokenNext replaces (*Lexer).Next while a lazy token sequence is active and
+// the lexer was created for the token-mode marker expression: the real lexer
+// runs on the token's text (so token classification is the real code) and the
+// result is handed to the parser.
+func (in *Interp) tokenNext(args []Value) (Value, bool) {
+	lp := args[0].(PtrV)
+	ls := lp.R.Load().(*StructV)
+	src, ok := ls.Fields[0].(*StrV)
+	if !ok || !src.IsConc() || src.Conc != "\x00TOKENS\x00" {
+		return nil, false
+	}
+	pos, _ := ls.Fields[1].(*Term).Int64Val()
+	in.tok.nextCalls++
+	text := in.tokenAt(int(pos))
+	ls.Fields[1] = IntC(pos + 1)
+	tp := args[1].(PtrV)
+	lexPkg := in.W.Pkgs[RepoModule+"/internal/lexer"]
+	// run the real lexer on the token text alone
+	tmp := &StructV{T: ls.T, Fields: []Value{ConcStr(text), IntC(0)}, Org: in.org()}
+	fn := in.W.Prog.LookupMethod(types.NewPointer(lexPkg.Type("Lexer").Type()), lexPkg.Pkg, "Next")
+	saved := in.tok
+	in.tok = nil
+	res := in.CallFunction(fn, []Value{PtrV{&Cell{V: tmp, Org: in.org()}}, tp}, nil)
+	in.tok = saved
+	return res, true
 }
